@@ -251,6 +251,9 @@ class Parts(object):
             for revs in ([], [('202001010000Z', 'r')], [('202002010000Z', 'r2'), ('202001010000Z', 'r1')],
                          [('9901010000Z', 'old')], [('202003010000Z', 'c'), ('202002010000Z', 'b'), ('9912312359Z', 'a')]):
                 yield {'g': g, 'o': {'revs': revs}}
+            # dates no calendar has (29 February 2021, hour 24): declared all the same
+            yield {'g': g, 'o': {'revs': [('202102290000Z', 'leap'), ('202001010000Z', 'fine')]}, 'tag': 'impossible-date'}
+            yield {'g': g, 'o': {'revs': [('202001012400Z', 'midnight')]}, 'tag': 'impossible-date'}
         elif g == 'tc':
             for disp, ref in itertools.product([None, '255a', ''], [None, 'R.']):
                 yield {'g': g, 'o': {'display': disp, 'ref': ref}}
@@ -266,7 +269,7 @@ class Parts(object):
         out = []
         vs = []
         for gt in (False, True):
-            oc, v, _ = judge(decls, gt, 'C03|parts|%s' % case['g'])
+            oc, v, _ = judge(decls, gt, 'C03|parts|%s%s' % (case['g'], '-' + case['tag'] if case.get('tag') else ''))
             out.append(oc)
             vs += v
         return repr(out), vs, 2
